@@ -25,7 +25,7 @@ func xGenPropWrap(prop string, kind int, tier string, seed uint64, n int, e *Emi
 	if n == 0 {
 		n = 400
 		if tier == "thorough" {
-			n = 12000
+			n = 6000
 		}
 	}
 	invalid := 0
